@@ -13,7 +13,7 @@ class Inconclusive(Exception):
     pass
 
 
-def run(P, fn, args, heap0=None, hooks=None, budget=300000, max_forks=16, single=True, forced=None, memory=None, align=None, on_start=None, globals_=None, inline_depth=None, with_acc=False):
+def run(P, fn, args, heap0=None, hooks=None, budget=300000, max_forks=16, single=True, forced=None, memory=None, align=None, on_start=None, globals_=None, inline_depth=None, with_acc=False, bounds=None):
     """Execute fn abstractly. hooks: {callee: f(events, args, interp) -> value}. Returns
     (return value, events, heap) when single=True (exactly one path must exist), else the list of such
     triples, one per explored path (a path forks where a branch depends on unknown data)."""
@@ -27,6 +27,8 @@ def run(P, fn, args, heap0=None, hooks=None, budget=300000, max_forks=16, single
         it.seeded_globals = dict(globals_)     # {mutable global name: element size}: its members are given in heap0 under base 'g:<name>'
     if on_start is not None:
         it.on_path_start = on_start
+    if bounds is not None:
+        it.bounds = dict(bounds)    # {base: (lo, hi)}: the first access outside raises skeleton.OutOfBounds
     if memory is not None:
         it.memory = memory      # memory(base, offset, size) -> value of bytes the heap does not hold
     for name, h in (hooks or {}).items():
